@@ -54,6 +54,8 @@ def line_col(s, idx):
 class Fns:
     def __init__(self, facts):
         self.fns = {fi.name: fi for fi in facts.fns(B) if not fi.in_test and fi.impl_self is None and all(absint.default_cfg(c) for c in fi.cfg)}
+        # helpers extracted after the rule was written are interpreted too
+        self.resolver = vf.new_fn_resolver(facts, [B], cfg=absint.default_cfg)
 
     def call(self, name, args, depth=0):
         fi = self.fns.get(name)
@@ -75,6 +77,7 @@ class Fns:
                 return NotImplemented
             return NotImplemented
         it = Interp(env={n: a for n, a in zip(names, args) if n}, on_call=on_call)
+        it.resolve_fn = self.resolver
         try:
             return it.block(fi.node["body"])
         except Return as r:
@@ -184,6 +187,9 @@ def r_spanpos(ctx):
                     d = v[2] if isinstance(v, tuple) and v[0] == "enum" and isinstance(v[2], dict) else {}
                     checks.append((nm, d.get("line") == el and d.get("column") == ec and d.get("range") == ("tuple", [a, b]) and d.get("index") == a, d))
                 for nm, ok, got in checks:
+                    if not ok and "opaque" in repr(got):
+                        ctx.incomplete_msg(rid, "%s on %r span (%d,%d): the result could not be evaluated (%r)" % (nm, s, a, b, got))
+                        continue
                     if not ok and nm not in seen:
                         seen.add(nm)
                         fi = fns.fns[nm]
